@@ -38,7 +38,7 @@ EXPLANATION = ("Theorems: threshold formulas and constancy; declarative descript
                "(quota election with the transfer factor (t-q)/t, default election, elimination of a lowest candidate) "
                "for the model's step function; recorded scores are the first-place tallies of the resulting state.")
 
-N_QUICK, N_THOROUGH = 2000, 24000
+N_QUICK, N_THOROUGH = 2000, 72000
 
 
 def engineer_threshold(rng, spec, m, quota):
